@@ -191,8 +191,16 @@ class WriteFrame(Unit):
                 rp = replay_write(n, thr, rng.choice([0, 1, 0x7f, 0x80, 300]))
                 if rp['confirmed']:
                     fails.append(dict(call=rp['call'], observed=rp['observed'], witness='write-frame'))
+            # payload / frame lengths at the VarInt length boundaries (2^7, 2^14, 2^21): the length prefixes change size there
+            for total in (126, 127, 128, 129, 16382, 16383, 16384, 16385) + ((2097151, 2097152, 2097153) if tier == 'thorough' else ()):
+                for pid in (1, 300):
+                    n = total - len(wire.varint_enc(pid))
+                    cnt += 1
+                    rp = replay_write(n, thr, pid)
+                    if rp['confirmed']:
+                        fails.append(dict(call=rp['call'], observed=rp['observed'], witness='write-frame'))
         return dict(name='C01.write.sizes-thresholds', evaluations=cnt, failures=fails[:2],
-                    bound='thresholds {None,-1,0,1,64,256,-5,2^31} x payload sizes around the threshold')
+                    bound='thresholds {None,-1,0,1,64,256,-5,2^31} x payload sizes around the threshold and at the VarInt length boundaries')
 
 
 class _Raw(Packet):
@@ -211,9 +219,12 @@ def replay_write(nfields, thr, pid):
     if k != 'ok':
         bad = '%s %r' % (k, v)
     else:
-        got = decode_frame(s.data, thr is not None)
+        try:
+            got = decode_frame(s.data, thr is not None)
+        except Exception as e:
+            got, bad = None, 'frame does not decode (%s: %s)' % (type(e).__name__, e)
         if got is None or got[0] != payload or got[2] != len(s.data):
-            bad = 'frame does not decode to the payload'
+            bad = bad or 'frame does not decode to the payload'
         elif thr is not None:
             want_comp = len(payload) > thr and thr != -1
             if got[1] != want_comp:
